@@ -11,13 +11,17 @@ CONFIG = dict(
                "while another holds the account within its time limit, answers each login request at most once - and every request is answered, "
                "still parked, or was parked and dropped by the 30 s expiry scan, nothing else loses one - and releases the account when a time "
                "limit passes (by an explicit update or by the first timer firing after the limit). Also proved: what a passed limit does NOT "
-               "release (a line switch that never ends blocks logins and line switches of the account for good). The model is tied to the Go "
-               "code on every run by executing both on generated histories (virtual time across the 1 s / 3 s / 30 s / 2 min / 3 min / 5 min / "
-               "30 min limits; a third of the histories run with the real timer registered by PlayerMgr.Start) and comparing acknowledgements, "
-               "return values, kick/offline requests and the per-account record (state, time limits, lock, connection, parked login); the "
+               "release (a line switch that never ends blocks logins and line switches of the account for good), and about the remote API in "
+               "front of the manager (center_remote.go): it answers Succ to exactly the logout / line-switch requests the manager accepted, "
+               "ErrFaild while a transaction holds the account, and a granted request has taken the account's lock. The model is tied to the Go "
+               "code on every run by sending every operation as a real request to the centre service's remote API (routes centerremote.*, "
+               "dispatched by the service's API dispatcher to handler.Entry, which calls PlayerMgr) on generated histories (virtual time across the 1 s / 3 s / 30 s / 2 min / 3 min / 5 min / "
+               "30 min limits; a third of the histories run with the real timer registered by PlayerMgr.Start) and comparing the responses the requester receives (login acknowledgements, the "
+               "NormalAck code of logout / line-switch requests, the acknowledgement of notifications), kick/offline requests and the per-account record (state, time limits, lock, connection, parked login); the "
                "property monitor (which states the time limits on its own; the proof needs them equal to the model's) is evaluated on what the "
-               "implementation answered.",
-    level_note="Trusted: Lean kernel, harness/driver line protocol and canonicalisation, the reflect-based record probe (fields located by type/shape, `?` "
+               "implementation answered to its callers.",
+    level_note="Trusted: Lean kernel, harness/driver line protocol and canonicalisation (a response is read as granted / refused / acknowledged "
+               "from its NormalAck code; no answer, an error, another code or a second answer are shown as such and reported as C18/request-answer), the reflect-based record probe (fields located by type/shape, `?` "
                "when unresolved - counted as probe.unresolved.* in the generator histogram) and the one-line overlay calling the periodic update "
                "in the histories that do not run the timer. The theorems are about the model; the differential run ties it to the code on sampled "
                "and bounded-exhaustive histories only. Not driven: the service's own 30 s request timeout for an unanswered offline request "
@@ -39,7 +43,8 @@ CONFIG = dict(
                        "timeouts_release_switch", "timeouts_release_reconnect", "unfinished_switch_blocks_account",
                        "timer_releases_expired_login", "timer_releases_expired_logout", "timer_firings",
                        "never_refused_without_holder", "refusedNoHolder_meaning_ack", "refusedNoHolder_meaning_switch",
-                       "logined_without_record_ignored", "late_logined_then_second_load", "stale_closed_report_unbinds_current_connection"],
+                       "logined_without_record_ignored", "late_logined_then_second_load", "stale_closed_report_unbinds_current_connection",
+                       "remote_grants_iff_accepted", "remote_refuses_while_held", "remote_grant_takes_lock", "remote_notifications_acknowledged"],
     harness_pkg="./c18",
     go_flags=["-overlay=/verif/harness/c18/overlay/overlay.json"],
     mode="diff",
@@ -57,7 +62,9 @@ CONFIG = dict(
     },
     trivial=r"^(ok.*|bad-op|refused|nondet|none|ret=- acks= kicks= offs= \| - \| - \| - \| nc=\d+ np=0 nt=0)$",
     rule="histories generated from one PRNG (VERIF_SEED): 1-2 accounts (a third one rarely) x 2-3 connections on two front-ends (plus, rarely, an "
-         "unknown front-end, net id 0, an unknown logic server); ops = login (kick on/off), closed report, logined, re-online, logout request, logout done, "
+         "unknown front-end, net id 0, an unknown logic server); every op below except tick / clock / offline reply is a ServiceRequest sent to the "
+         "centre's remote API (centerremote.reqlogin, onsessionclose, onlogiclogined, onlogicreonline, reqlogout, onlogout, onabnormallogout, "
+         "reqswitchline, onswitchlineend) from a recording requester; ops = login (kick on/off), closed report, logined, re-online, logout request, logout done, "
          "abnormal logout, line switch begin/end, offline reply (ok/error), tick, clock advance (in a third of the histories: with the real 1 s timer of "
          "PlayerMgr.Start running, `reset timer=1` / `advt`, a quarter of those advances landing 1 ms before / on / 1 ms after a firing) aimed at just before / at / just after each of the "
          "3 s / 30 s / 2 min / 3 min / 5 min / 30 min limits (the deadlines the implementation currently shows, or counted from the instants "
@@ -69,7 +76,7 @@ CONFIG = dict(
          "the implementation's observation shows an answer, a return value, a request or a record; distinct = distinct (op, observation) pairs",
     trusted_base=[
         "Lean 4.33.0 kernel; axioms of every property theorem audited on each run (allowed: propext, Classical.choice, Quot.sound)",
-        "hand-written model lean/Cell2v/Model/Center.lean tied to the Go code by the differential run of this check (harness/c18 + modeld_c18)",
+        "hand-written model lean/Cell2v/Model/Center.lean (PlayerMgr) + lean/Cell2v/Model/CenterRemote.lean (the remote API's answers) tied to the Go code by the differential run of this check (harness/c18 + modeld_c18)",
         "property monitor lean/Cell2v/Spec/C18.lean (the statement of the property on observable histories; it shares the operation/event types and the "
         "timer's firing instants with the model, states the time limits itself)",
         "overlay harness/c18/overlay/export_verif.go: one method calling the unexported periodic update (op tick; the histories started by `reset timer=1` "
@@ -77,10 +84,14 @@ CONFIG = dict(
         "sync.Map - located by type - and cancelled at the next reset); the per-account record is read through exported "
         "API (GetState, FrontId, NetId, GetLogicId) and, for the lock / limits / parked task, with reflect+unsafe by field type and shape (never by name); "
         "an unrecognised shape degrades to `?` in the observation (model echoes it), it does not fail the check",
+        "the harness's requester: ServiceRequest / ServiceResponse built and read at the wire level (remote.Serialize / Deserialize with the service's "
+        "serializer id), so the caller-side request timeout of actorex/service is not in the way of late login answers; the centre service is built with "
+        "node/service.NewServiceWithDispatcher + StartNodeService as node/servicebuilder does (the PlayerMgr is replaced by a fresh one at every `reset`)",
         "go1.26 testing/synctest virtual clock; proto.actor local delivery; harness canonicalisation (times relative to the case start, kicks sorted)",
     ],
     assumptions=[
-        "entry points run on the owning service's goroutine (the harness posts them to its scheduler, as the actor runtime does)",
+        "entry points run on the owning service's goroutine (they arrive as requests in the service's mailbox; tick and the record probe are "
+        "posted to its scheduler)",
         "the periodic update is called explicitly (op tick) in two thirds of the histories, by the 1 s timer registered in PlayerMgr.Start in the rest "
         "(the model assumes what the run confirms: firings exactly every 1000 ms of virtual time from Start, the update reading the clock at the firing)",
         "front-ends answer kick requests at once; the logic server answers (or fails) an offline request before the service's 30 s request timeout",
